@@ -21,6 +21,8 @@ StepFails(S, c, a, o) ==
      \cup (IF c[1] = "step" /\ a.res[1] = "ok" /\ o.kind = "error" THEN {"crash"} ELSE {})
      \cup (IF o.kind # "error" /\ \E e \in InNet(T) \cap Declaring : o.vars[e] # T.vars[e] THEN {"c13.kinds"} ELSE {})
 
+\* (TLC keeps [x \in S |-> e] as an unevaluated lambda; comparing a value with itself converts and caches every function in it)
+Norm(S) == IF S = S THEN S ELSE S
 RECURSIVE Walk(_, _, _, _)
 Walk(tr, i, S, acc) ==
   IF i > Len(tr.calls) THEN [fails |-> acc, uniform |-> Uniform(S) /\ Ready(S), last |-> IF S.nxt["L2"].has THEN <<S.nxt["L2"].par, S.nxt["L2"].opts>> ELSE <<"", "">>]
@@ -29,7 +31,7 @@ Walk(tr, i, S, acc) ==
           ELSE LET a == Apply(S, c)
                    f == StepFails(S, c, a, tr.obs[i])
                IN IF f # {} THEN [fails |-> acc \cup {<<i, x>> : x \in f}, uniform |-> FALSE, last |-> <<"", "">>]
-                  ELSE Walk(tr, i + 1, a.S, acc)
+                  ELSE Walk(tr, i + 1, Norm(a.S), acc)
 
 Verdict(tr) == LET w == Walk(tr, 1, [Init0 EXCEPT !.cur = [kind |-> tr.kind, id |-> "trace_engine"]], {})
                IN [id |-> tr.id, fails |-> w.fails, uniform |-> w.uniform, last |-> w.last]
